@@ -24,13 +24,15 @@ FLOORS = {
                            "f_include_without_context": 100, "f_import_with_context": 100,
                            "f_ignore_missing": 100, "f_include_list": 100, "f_include_object": 50,
                            "f_in_loop": 100, "f_in_macro": 100, "f_in_with": 100,
-                           "f_in_block": 50, "f_in_block_after_set": 30}},
+                           "f_in_block": 50, "f_in_block_after_set": 30,
+                           "template_globals_order_compares": 400}},
     "thorough": {"evaluations": 50000, "distinct": 150,
                  "counters": {"compares": 50000, "module_export_checks": 10000,
                               "f_include_without_context": 2000, "f_import_with_context": 2000,
                               "f_ignore_missing": 2000, "f_include_list": 2000,
                               "f_include_object": 1000, "f_in_loop": 2000, "f_in_macro": 2000,
-                              "f_in_with": 2000, "f_in_block": 1000, "f_in_block_after_set": 600}},
+                              "f_in_with": 2000, "f_in_block": 1000, "f_in_block_after_set": 600,
+                              "template_globals_order_compares": 8000}},
 }
 
 
@@ -123,6 +125,35 @@ def check(ctx, templates, data, glob):
                                   {"templates": templates, "data": data, "glob": glob})
 
 
+def check_globals_order(ctx, templates, data, glob):
+    """Template-level globals (get_template(name, globals=...)) reach the templates that `main`
+    imports / includes the same way whether or not those templates (and main itself) were
+    already loaded, rendered or turned into modules before the globals arrived."""
+    tg = {"p": "TP", "lv": "TL", "q": "TQ"}
+    for is_async in (False, True):
+        outs = {}
+        for history in ("fresh", "warmed"):
+            env, srcs = build_env(templates, glob, is_async)
+            d = {k: v for k, v in conv_data(data, env).items() if k not in tg}
+            if history == "warmed":
+                util.capture(lambda: env.get_template("main").render(**d))
+                if not is_async:
+                    for n in templates:
+                        if n.startswith("mod"):
+                            util.capture(lambda: env.get_template(n).module)
+            o = util.capture(lambda: env.get_template("main", globals=dict(tg)).render(**d))
+            outs[history] = ("ok", o.value) if o.ok else ("exc", type(o.exc).__name__)
+        ctx.ev(2)
+        ctx.count("template_globals_order_compares")
+        if outs["fresh"] != outs["warmed"]:
+            ctx.violation("ctxvis:template-globals:depends-on-load-order",
+                          f"get_template('main', globals={tg}).render(): fresh environment {outs['fresh']!r}, after the "
+                          f"same templates were rendered / turned into modules without them {outs['warmed']!r} | "
+                          f"templates={srcs} data={data} async={is_async}",
+                          {"templates": templates, "data": data, "glob": glob, "order": True})
+            return
+
+
 def run(ctx):
     rng = ctx.rng("s")
     n = 2500 if ctx.tier == "quick" else 60000
@@ -133,6 +164,8 @@ def run(ctx):
         for f in g.info:
             ctx.count("f_" + f)
         check(ctx, templates, data, glob)
+        if i % 2 == 0:
+            check_globals_order(ctx, templates, data, glob)
         ctx.dist(sorted(g.info))
         if i < 2:
             ctx.sample({"templates": {n: jast.ps(b) for n, b in templates.items()}, "data": data})
@@ -140,4 +173,6 @@ def run(ctx):
 
 
 def replay(ctx, case):
+    if case.get("order"):
+        return check_globals_order(ctx, case["templates"], case["data"], case["glob"])
     check(ctx, case["templates"], case["data"], case["glob"])
